@@ -223,8 +223,8 @@ TEXTS['C13'] = {
             "assuming each refused stream retries no earlier than told. Not proved: the combined bound '1.25 x max x T + burst' for "
             "traffic mixing both kinds — the oracle measures "
             "windowed byte counts, waits and starvation of the real classes for 1-8 streams in virtual time under the "
-            "deterministic scheduler (adversarial think times, late wake-ups, abandoned waiters). Defect D4 was found and "
-            "repaired; D5 (infinite rate after simultaneous scheduled releases) is a recorded finding.",
+            "deterministic scheduler (adversarial think times, late wake-ups, abandoned waiters). Defects D4 and D5 (rate "
+            "stuck at infinity after two consumptions at one clock reading) were found and repaired; the tracked rate is proved to stay finite.",
     'note': COMMON_NOTE + "Axioms of the Mathlib tactics used (linarith, nlinarith, positivity, field lemmas) stay within propext / "
             "Classical.choice / Quot.sound. The real classes compute in IEEE-754 floats: decisions are compared with the exact "
             "model except within 1e-9 of the limit; real time and OS sleeping are replaced by a virtual clock.",
